@@ -9,7 +9,7 @@ RULE = ("trajectories with 1..8 segments whose x, y, z encodings are constant, l
         "coordinates incl. +-32767/-32768, interior extrema frequent (control points outside the end-point range); a class "
         "aimed at the closed-form solvers (derivative with an exactly zero linear or quadratic coefficient, coincident control "
         "points), a class with zero-duration segments that leave the hull of the others, a class with degree-7 axes (recorded "
-        "finding D13); the repository fixtures. Non-trivial = at least one cubic axis.")
+        "finding D13), blocks longer than 64 KiB with the extreme segment at the end; the repository fixtures. Non-trivial = at least one cubic axis.")
 EXPLANATION = ("for every axis: certified [min_lo, min_hi] and [max_lo, max_hi] enclose the exact extrema over all segments; the "
                "implementation's face must lie in that enclosure widened by the float tolerance: contains everything and is attained")
 ASSUMPTIONS = ["float tolerance 200 * 2^-23 * 27 * max|coordinate| + 1e-4 * (range of the axis) is an assumed bound",
@@ -26,6 +26,13 @@ def cases(rng, tier):
         hi = (i % 25 == 0)
         tr = G.rand_traj(rng, nseg=rng.choice([1, 2, 3, 5, 8]), maxdeg=(7 if hi else 3))
         yield ("stats bbox %s" % hexs(G.encode(tr)), "deg7" if hi else "gen")
+    # blocks longer than 64 KiB whose extreme segments lie beyond byte offset 65536
+    for i in range(8 if tier == "thorough" else 1):
+        tr = G.rand_traj(rng, nseg=rng.choice([2, 3]), maxdeg=3)
+        st = tr["start"]
+        tr["segs"] = G.long_prefix(rng, st[0], st[1], st[2], deg=3, flat_z=False) + tr["segs"]
+        tr["segs"][-1]["x"] = [rng.choice([30000, -30000])] * max(1, len(tr["segs"][-1]["x"]))
+        yield ("stats bbox %s" % hexs(G.encode(tr)), "long-block")
     # aimed at the closed-form solvers: cubic axes whose derivative has an exactly zero linear coefficient
     # (control points with p0 - 2 p1 + p2 = 0), zero quadratic coefficient, coincident control points
     for i in range(n // 5):
